@@ -62,8 +62,11 @@ def run(ctx):
     prog = ctx.prog
     ctx.rule("R7.1", "per-command-line dedupe uses the canonical identity: the seen-set key derives from the File::from_name record, not from the raw argument")
     ctx.rule("R7.2", "every fork is preceded by a fresh verdict of the dirtiness callback: BuildJob::start calls the callback on every path before start_self / start_deps_unlocked, which have no other caller")
+    ctx.rule("R7.4", "the lock taken before the verdict stays with the job: the future returned for a forked job (the .do or redo-unlocked) owns the Lock")
     ctx.rule("R7.3", "the verdict consults this run's state: changed_runid > max_changed => Dirty and the memoised is_checked => Clean in the dirtiness routine; is_checked/is_changed compare against env.runid")
     dedupe_rule(ctx, "R7.1")
+    from rules.C06 import future_owns_lock
+    future_owns_lock(ctx, "R7.4")
 
     J = anchors.job_start(prog)
     jba = BA.of(J)
@@ -105,7 +108,7 @@ def run(ctx):
             ok = p is None
     ctx.ob("R7.3", "%s|built-later-than-parent=>Dirty" % D.key, ok, where=D.span,
            detail="changed_runid > max_changed returns Dirty" if ok else "the 'built more recently than parent' test is missing or does not return Dirty")
-    for nm, fld in (("is_checked", "state::File.checked_runid"), ("is_changed", "state::File.changed_runid")):
+    for nm, fld in (("is_checked", "state::File.checked_runid"), ("is_changed", "state::File.changed_runid"), ("is_failed", "state::File.failed_runid")):
         b = prog.one(r"state::File::" + nm)
         bba = BA.of(b)
         ge = False
